@@ -1013,6 +1013,8 @@ class Interp:
         it = yield from self.ev(st.iter, fr)
         itr = yield from self.get_iter(it)
         fr.ctx.append(("for", st.lineno, itr))     # the iterator position is part of the control state (cut keys)
+        if type(itr).__name__ == "SymRangeIter" and isinstance(st.target, ast.Name):
+            itr.owner = (fr, st.target.id)
         try:
             while True:
                 try:
@@ -1780,6 +1782,15 @@ class Interp:
     def get_iter(self, v):
         if isinstance(v, (GenObj, AbsGen, _ListIter, _LiveIter)):
             return v
+        from .vals import SymRange, SymRangeIter
+        if isinstance(v, SymRangeIter):
+            return v
+        if isinstance(v, SymRange):
+            it = SymRangeIter(v)
+            self.w.ghost.setdefault("$symiters", []).append(it)
+            return it
+        if hasattr(v, "pyvc_next"):
+            return v
         if isinstance(v, (list, tuple, collections.deque)):
             return _LiveIter(v)
         if isinstance(v, (set, frozenset, dict, range, str, bytes)):
@@ -1808,6 +1819,20 @@ class Interp:
         """next(itr) -> value; raises _IterStop at exhaustion (host-level, not object-level)"""
         if isinstance(itr, (_ListIter, _LiveIter)):
             return itr.next()
+        from .vals import SymRangeIter
+        if isinstance(itr, SymRangeIter):
+            if itr.exhausted:
+                raise _IterStop()
+            if itr.rng.stop is not None:
+                more = ops.compare("<", itr.pos, itr.rng.stop)
+                if not self.truth(more, "range has a next element"):
+                    itr.exhausted = True
+                    raise _IterStop()
+            v = itr.pos
+            itr.pos = ops.binop("+", itr.pos, 1)
+            return v
+        if hasattr(itr, "pyvc_next"):
+            return itr.pyvc_next(self)
         if isinstance(itr, (GenObj, AbsGen)):
             out = itr.resume(("send", None))
             if out[0] == "yield":
